@@ -19,7 +19,7 @@ def sig_of(ev):
 def main(ctx):
     tlc_mc(ctx, "Durable.tla", "Durable_quick.cfg", timeout=900, label="Durable.tla (recovery arithmetic shared with Open)")
     exe = build("recoverdb")
-    nprog, nsteps, variants = (24, 220, 15) if ctx.quick else (300, 500, 30)
+    nprog, nsteps, variants = (64, 220, 15) if ctx.quick else (300, 500, 30)
     seeds = [ctx.seed * 1000 + i for i in range(nprog)]
 
     # a few almost empty databases too (nothing or a handful of writes, all still in the journal, no table yet)
